@@ -5,6 +5,7 @@ package c15
 import (
 	"encoding/json"
 	"fmt"
+	"reflect"
 	"strings"
 	"sync/atomic"
 
@@ -16,7 +17,7 @@ import (
 	"verif/internal/ref"
 )
 
-var leafDefaults = []string{"", `1`, `"s"`, `null`, `{}`, `{"a":5}`, `[1]`}
+var leafDefaults = []string{"", `1`, `"s"`, `null`, `{}`, `{"a":5}`, `[1]`, `{"a":{"b":[1]}}`, `[[1],{"k":[2]}]`}
 
 func node(def string, req string, props string, typ string) string {
 	var parts []string
@@ -150,14 +151,41 @@ func Instances() []string {
 	return u
 }
 
+// poison overwrites every container reachable from x in place.
+func poison(x any) {
+	switch v := x.(type) {
+	case map[string]any:
+		for _, e := range v {
+			poison(e)
+		}
+		for k := range v {
+			if _, isC := v[k].(map[string]any); !isC {
+				if _, isS := v[k].([]any); !isS {
+					v[k] = "scribbled"
+				}
+			}
+		}
+		v["scribble"] = true
+	case []any:
+		for i, e := range v {
+			poison(e)
+			if _, isC := e.(map[string]any); !isC {
+				if _, isS := e.([]any); !isS {
+					v[i] = "scribbled"
+				}
+			}
+		}
+	}
+}
+
 func toVal(x any) (*ref.Val, error) { return ref.FromPlain(x) }
 
 func Run(r *ev.Run) {
 	thorough := r.Tier == "thorough"
 	schemas := Schemas(thorough)
 	insts := Instances()
-	r.Rule("default-bearing properties trees of depth<=3 (+depth-4 spines) over names {a,b}: per node default in {absent,1,\"s\",null,{},{\"a\":5},[1]}, required subsets, typed/untyped leaves x every JSON value of depth<=2 over keys {a,b,c} with leaves {1,\"s\",null,[],{}} plus selected depth 3, passed as *any and as *map[string]any. " +
-		"Histories (explored exhaustively per pair): apply; apply.apply (idempotence); apply.delete(k).apply for every top-level key k the first apply inserted, then apply again. Every apply step is judged by the R4 laws from the state it started in. ValidateDefaults: Resolve(ValidateDefaults) succeeds iff R1 validates every default against its declaring subschema (also for defaults under items/allOf/$defs/additionalProperties). states = distinct (schema, instance-state) pairs reached, transitions = ApplyDefaults/Validate/Resolve calls. Non-trivial = the first apply inserted something")
+	r.Rule("default-bearing properties trees of depth<=3 (+depth-4 spines) over names {a,b}: per node default in {absent,1,\"s\",null,{},{\"a\":5},[1],{\"a\":{\"b\":[1]}},[[1],{\"k\":[2]}]}, required subsets, typed/untyped leaves x every JSON value of depth<=2 over keys {a,b,c} with leaves {1,\"s\",null,[],{}} plus selected depth 3, passed as *any and as *map[string]any. " +
+		"Histories (explored exhaustively per pair): apply; apply.apply (idempotence); apply.scribble-over-the-result.apply(fresh instance) must equal the first result; apply.delete(k).apply for every top-level key k the first apply inserted, then apply again. Every apply step is judged by the R4 laws from the state it started in. ValidateDefaults: Resolve(ValidateDefaults) succeeds iff R1 validates every default against its declaring subschema (also for defaults under items/allOf/$defs/additionalProperties, and for pairs of subschemas with the same type and default text but different constraints, in both orders and 7 placements). states = distinct (schema, instance-state) pairs reached, transitions = ApplyDefaults/Validate/Resolve calls. Non-trivial = the first apply inserted something")
 	r.Assume("R4 laws: present values untouched, nothing inserted for a required name, inserted value = declared default lawfully completed, or a container holding >=1 inserted default; the laws do not oblige a default to be filled",
 		"struct targets and nil maps are outside the domain; no $dynamicRef in the ValidateDefaults space")
 	r.Set("schemas", len(schemas))
@@ -231,6 +259,30 @@ func Run(r *ev.Run) {
 				after2, ok := apply(k1+".apply", target, after)
 				if ok && after2.Canon() != after.Canon() {
 					r.Fail(k1+".apply", map[string]any{"class": "not idempotent", "first": after.JSON(), "second": after2.JSON()})
+				}
+				// the caller scribbles over every container of the result (it owns them); a fresh
+				// instance completed from the same Resolved must still get the declared defaults
+				if after.Canon() != before.Canon() {
+					poison(reflect.ValueOf(target).Elem().Interface())
+					var z any = before.Plain()
+					var t3 any = &z
+					if mode != "*any" {
+						m := z.(map[string]any)
+						t3 = &m
+					}
+					states.Add(1)
+					a5, ok := apply(k1+".scribble.apply(fresh)", t3, before)
+					if ok && a5.Canon() != after.Canon() {
+						r.Fail(k1+".scribble.apply(fresh)", map[string]any{"class": "state leaks between calls", "first": after.JSON(), "fresh_after_scribble": a5.JSON()})
+					}
+					// restore the target for the histories below
+					var w any = after.Plain()
+					if mode == "*any" {
+						target = &w
+					} else {
+						m := w.(map[string]any)
+						target = &m
+					}
 				}
 				// delete every inserted top-level key, apply again
 				if after.K == ref.Obj && before.K == ref.Obj {
@@ -321,6 +373,34 @@ func vdSchemas(trees []string) []string {
 			}
 			for _, w := range wrap {
 				out = append(out, fmt.Sprintf(w, with))
+			}
+		}
+	}
+	// two subschemas with the same type keyword and byte-identical default text but different
+	// further constraints, in both orders and in several placements
+	type fam struct {
+		typ, def string
+		cons     []string
+	}
+	fams := []fam{
+		{`"type":"integer",`, `1`, []string{``, `,"minimum":2`, `,"maximum":5`, `,"enum":[2]`, `,"const":1`}},
+		{``, `1`, []string{``, `,"minimum":2`, `,"type":"string"`, `,"const":1`}},
+		{`"type":"string",`, `"s"`, []string{``, `,"maxLength":0`, `,"pattern":"^s"`, `,"enum":["t"]`}},
+		{`"type":"object",`, `{"a":1}`, []string{``, `,"required":["b"]`, `,"properties":{"a":{"type":"string"}}`, `,"maxProperties":3`}},
+		{`"type":["array","null"],`, `[1]`, []string{``, `,"maxItems":0`, `,"items":{"type":"string"}`, `,"minItems":1`}},
+	}
+	places := []string{`{"properties":{"a":%s,"b":%s}}`, `{"allOf":[%s,%s]}`, `{"$defs":{"x":%s,"y":%s}}`, `{"items":%s,"additionalProperties":%s}`, `{"properties":{"a":{"properties":{"z":%s}},"b":%s}}`, `{"properties":{"p":%s},"patternProperties":{"^q":%s}}`, `{"prefixItems":[%s,{"not":%s}]}`}
+	for _, f := range fams {
+		for _, c1 := range f.cons {
+			for _, c2 := range f.cons {
+				if c1 == c2 {
+					continue
+				}
+				x := `{` + f.typ + `"default":` + f.def + c1 + `}`
+				y := `{` + f.typ + `"default":` + f.def + c2 + `}`
+				for _, pl := range places {
+					out = append(out, fmt.Sprintf(pl, x, y))
+				}
 			}
 		}
 	}
